@@ -747,7 +747,7 @@ class Opaque(Type):
         # actual type or a row variable.
         args = [cast(model.Term, arg.to_model()) for arg in self.args]
 
-        return model.Apply(self.id, args)
+        return model.Apply(f"{self.extension}.{self.id}", args)
 
 
 @dataclass
